@@ -406,9 +406,12 @@ def corpus(tier="quick", seed=0, want=None, exclude=("zsr",)):
     progs = [p for p in CORPUS if not (set(p.tags) & set(exclude))]
     if want:
         progs = [p for p in progs if p.name in want]
-    if tier == "thorough":
-        progs = progs + generated(seed, 40, exclude=exclude)
-    return progs
+    ngen2 = 120 if tier == "thorough" else 24
+    gen = generated2(seed, ngen2) + (generated(seed, 40, exclude=exclude) if tier == "thorough" else [])
+    gen = [p for p in gen if not (set(p.tags) & set(exclude))]
+    if want:
+        gen = [p for p in gen if p.name in want]
+    return progs + gen
 
 
 # ---------------------------------------------------------------------------
@@ -522,6 +525,308 @@ def generated(seed, n, exclude=()):
         if not any(keep):
             continue
         out.append(Prog(f"gen{seed}_{k}", ins, _gen_fn(ops, keep), ("generated", "reduction", "einsum")))
+    return out
+
+
+# ---------------------------------------------------------------------------
+# seeded generator, second version: shape-aware.  The program is grown step by step on real NumPy arrays, so every
+# parameter (permutation, slice, pad widths, reshape target, einsum spec, ...) is drawn to fit the operand at hand and
+# every recorded step is one NumPy accepts; replaying the recorded steps with another library object gives the same
+# program in that reading.
+
+def _slc(ax, sl, nd):
+    return (slice(None),) * ax + (sl,) + (slice(None),) * (nd - ax - 1)
+
+
+def _factorizations(n, rnd):
+    if n == 0:
+        return [(0,), (0, 2), (3, 0)]
+    out = [(n,)]
+    for a in range(1, n + 1):
+        if n % a == 0:
+            out.append((a, n // a))
+            for b in range(1, n // a + 1):
+                if (n // a) % b == 0:
+                    out.append((a, b, n // a // b))
+    return out
+
+
+def _draw_step(rnd, shapes):
+    """-> (kind, operand indices, params) fitting the pool's shapes, or None"""
+    i = rnd.randrange(len(shapes))
+    shp = shapes[i]
+    nd = len(shp)
+    kind = rnd.choice(_G2)
+    if kind in ("neg", "sin", "cos", "abs", "sqrt_abs", "exp_tanh", "square", "scal_mul", "scal_rsub", "clip_lo", "clip_hi",
+                "where_pos", "zeros_like_add", "ones_like_f32", "astype_f32", "recip"):
+        return kind, (i,), (rnd.choice([2.5, -1.0, 0.5, 3]),)
+    if kind == "transpose":
+        if nd < 2:
+            return None
+        perm = list(range(nd))
+        rnd.shuffle(perm)
+        return kind, (i,), (tuple(perm),)
+    if kind == "slice":
+        if nd == 0:
+            return None
+        ax = rnd.randrange(nd)
+        n = shp[ax]
+        step = rnd.choice([1, 1, 2, -1, -1, -2, 3])
+        start = rnd.choice([None, 0, 1, -1, n, n + 2, -n - 1, n - 1])
+        stop = rnd.choice([None, None, n, n - 1, 0, -1, -n, n + 3, 1])
+        return kind, (i,), (ax, start, stop, step)
+    if kind == "intidx":
+        if nd == 0:
+            return None
+        ax = rnd.randrange(nd)
+        if shp[ax] == 0:
+            return None
+        return kind, (i,), (ax, rnd.randrange(-shp[ax], shp[ax]))
+    if kind == "roll":
+        if nd == 0:
+            return None
+        return kind, (i,), (rnd.randint(-7, 7), rnd.randrange(nd))     # (non-negative axes only are documented)
+    if kind in ("sum", "prod", "max", "min"):
+        if nd == 0:
+            return None
+        axes = tuple(sorted(rnd.sample(range(nd), rnd.randint(1, nd))))
+        if kind in ("max", "min") and any(shp[a] == 0 for a in axes):
+            return None
+        return kind, (i,), (axes if len(axes) > 1 or rnd.random() < 0.5 else axes[0],)
+    if kind == "reshape":
+        size = int(np.prod(shp))
+        if size > 24:
+            return None
+        return kind, (i,), (rnd.choice(_factorizations(size, rnd)), rnd.choice("CF"))
+    if kind == "expand":
+        return kind, (i,), (rnd.randrange(-nd - 1, nd + 1),)
+    if kind == "squeeze":
+        ones = [a for a in range(nd) if shp[a] == 1]
+        if not ones:
+            return None
+        return kind, (i,), ((rnd.choice(ones),),)
+    if kind == "broadcast_to":
+        if nd > 2:
+            return None
+        new = tuple(rnd.choice([2, 3]) if s == 1 and rnd.random() < 0.7 else s for s in shp)
+        return kind, (i,), ((rnd.choice([2, 1, 3]),) * rnd.randint(0, 1) + new,)
+    if kind == "pad":
+        if nd == 0 or nd > 3:
+            return None
+        return kind, (i,), (tuple((rnd.randint(0, 2), rnd.randint(0, 2)) for _ in range(nd)), rnd.choice([0.0, 1.5]))
+    if kind == "arange_index":
+        if nd == 0 or shp[0] == 0:
+            return None
+        return kind, (i,), (rnd.randint(1, 4), rnd.randint(1, 3), rnd.randint(0, 2))
+    if kind == "einsum1":
+        specs = {1: ["i->", "i->i"], 2: ["ij->ji", "ij->i", "ij->j", "ij->"] + (["ii->i", "ii->"] if nd == 2 and shp[0] == shp[1] else []),
+                 3: ["ijk->kij", "ijk->ik", "ijk->jki", "ijk->j"]}.get(nd)
+        if not specs:
+            return None
+        return kind, (i,), (rnd.choice(specs),)
+    # binary
+    j = rnd.randrange(len(shapes))
+    shq = shapes[j]
+    if kind in ("add", "sub", "mul", "div", "where_lt", "maximum", "minimum", "where_band"):
+        return kind, (i, j), ()
+    if kind == "arctan2":      # (pytato's function application does not broadcast: documented NotImplementedError)
+        return kind, (i, rnd.choice([k for k, t in enumerate(shapes) if t == shp])), ()
+    if kind == "stack":
+        if shp != shq:
+            # look for a partner of the same shape
+            same = [k for k, t in enumerate(shapes) if t == shp]
+            j = rnd.choice(same)
+        return kind, (i, j, rnd.randrange(len(shapes)) if rnd.random() < 0.3 else j), (rnd.randrange(nd + 1),)
+    if kind == "concat":
+        if nd == 0:
+            return None
+        ax = rnd.randrange(nd)
+        ok = [k for k, t in enumerate(shapes) if len(t) == nd and all(t[a] == shp[a] for a in range(nd) if a != ax)]
+        return kind, (i, rnd.choice(ok), rnd.choice(ok)), (ax,)        # (pytato documents non-negative axes only)
+    if kind == "matmul":
+        ok = [k for k, t in enumerate(shapes) if nd >= 1 and len(t) >= 1 and t[0 if len(t) == 1 else -2] == shp[-1]]
+        if not ok:
+            return None
+        return kind, (i, rnd.choice(ok)), ()
+    if kind == "einsum2":
+        cands = []
+        for k, t in enumerate(shapes):
+            if nd == 2 and len(t) == 2:
+                if t[0] == shp[1]:
+                    cands += [(k, "ij,jk->ik"), (k, "ij,jk->ki")]
+                if t == shp:
+                    cands += [(k, "ij,ij->i"), (k, "ij,ij->"), (k, "ij,ij->ji")]
+                if t[1] == shp[1] and (t[0] == 1 or shp[0] == 1 or t[0] == shp[0]):
+                    cands += [(k, "ij,ij->j")]
+                if shp[1] == 1 or t[0] == 1:
+                    cands += [(k, "ij,jk->ik")]      # broadcast on the contracted index
+            if nd == 1 and len(t) == 1:
+                cands += [(k, "i,j->ij")] + ([(k, "i,i->")] if t == shp or 1 in (t[0], shp[0]) else [])
+            if nd == 2 and len(t) == 1 and (t[0] == shp[1] or t[0] == 1):
+                cands += [(k, "ij,j->i"), (k, "ij,j->ij")]
+            if nd == 3 and len(t) == 2 and t[0] == shp[2]:
+                cands += [(k, "ijk,kl->ijl"), (k, "ijk,kl->lji")]
+        if not cands:
+            return None
+        k, spec = rnd.choice(cands)
+        return kind, (i, k), (spec,)
+    raise AssertionError(kind)
+
+
+_G2 = ["neg", "sin", "cos", "abs", "sqrt_abs", "exp_tanh", "square", "scal_mul", "scal_rsub", "clip_lo", "clip_hi", "where_pos",
+       "zeros_like_add", "ones_like_f32", "astype_f32", "recip",
+       "transpose", "transpose", "slice", "slice", "slice", "intidx", "roll", "roll", "sum", "sum", "prod", "max", "min", "reshape",
+       "reshape", "expand", "squeeze", "broadcast_to", "pad", "pad", "arange_index", "einsum1", "einsum1",
+       "add", "sub", "mul", "div", "where_lt", "maximum", "minimum", "where_band", "arctan2", "stack", "concat", "concat",
+       "matmul", "einsum2", "einsum2", "einsum2"]
+
+
+def _apply_step(L, kind, xs, prm):
+    x = xs[0]
+    nd = len(x.shape)
+    if kind == "neg":
+        return -x
+    if kind == "sin":
+        return L.sin(x)
+    if kind == "cos":
+        return L.cos(x)
+    if kind == "abs":
+        return L.abs(x)
+    if kind == "sqrt_abs":
+        return L.sqrt(L.abs(x) + 1)
+    if kind == "exp_tanh":
+        return L.exp(L.tanh(x))
+    if kind == "square":
+        return x ** 2
+    if kind == "scal_mul":
+        return x * prm[0]
+    if kind == "scal_rsub":
+        return prm[0] - x
+    if kind == "clip_lo":
+        return L.maximum(x, prm[0])
+    if kind == "clip_hi":
+        return L.minimum(x, prm[0])
+    if kind == "where_pos":
+        return L.where(L.greater(x, 0), x, prm[0])
+    if kind == "zeros_like_add":
+        return L.zeros_like(x) + x * prm[0]
+    if kind == "ones_like_f32":
+        return L.ones_like(x, dtype=np.dtype(F32)) * x
+    if kind == "astype_f32":
+        return L.astype(x, F32) * 2
+    if kind == "recip":
+        return prm[0] / (x * x + 1)
+    if kind == "transpose":
+        return L.transpose(x, prm[0])
+    if kind == "slice":
+        ax, a, b, c = prm
+        return x[_slc(ax, slice(a, b, c), nd)]
+    if kind == "intidx":
+        ax, k = prm
+        return x[_slc(ax, k, nd)]
+    if kind == "roll":
+        return L.roll(x, prm[0], prm[1])
+    if kind in ("sum", "prod", "max", "min"):
+        return getattr(L, kind)(x, axis=prm[0])
+    if kind == "reshape":
+        return L.reshape(x, prm[0], order=prm[1])
+    if kind == "expand":
+        return L.expand_dims(x, prm[0])
+    if kind == "squeeze":
+        return L.squeeze(x, axis=prm[0])
+    if kind == "broadcast_to":
+        return L.broadcast_to(x, prm[0])
+    if kind == "pad":
+        return L.pad(x, prm[0], constant_values=prm[1])
+    if kind == "arange_index":
+        k, mul, off = prm
+        idx = (L.arange(k) * mul + off) % x.shape[0]
+        return x[idx]
+    if kind == "einsum1":
+        return L.einsum(prm[0], x)
+    y = xs[1]
+    if kind == "add":
+        return x + y
+    if kind == "sub":
+        return x - y
+    if kind == "mul":
+        return x * y
+    if kind == "div":
+        return x / (y * y + 1)
+    if kind == "where_lt":
+        return L.where(L.less(x, y), x, y)
+    if kind == "maximum":
+        return L.maximum(x, y)
+    if kind == "minimum":
+        return L.minimum(x, y)
+    if kind == "where_band":
+        return L.where(L.logical_and(L.greater(x, y), L.less(x, 2 * y)), x - y, y)
+    if kind == "arctan2":
+        return L.arctan2(x, y)
+    if kind == "stack":
+        return L.stack(list(xs), axis=prm[0])
+    if kind == "concat":
+        return L.concatenate(list(xs), axis=prm[0])
+    if kind == "matmul":
+        return x @ y
+    if kind == "einsum2":
+        return L.einsum(prm[0], x, y)
+    raise AssertionError(kind)
+
+
+def _gen2_fn(steps, nouts):
+    def fn(L, **ins):
+        pool = [ins[k] for k in sorted(ins)]
+        for kind, opnds, prm in steps:
+            pool.append(_apply_step(L, kind, [pool[k] for k in opnds], prm))
+        made = pool[len(ins):]
+        outs = made[-nouts:]
+        return {f"o{k}": v for k, v in enumerate(outs)}
+    return fn
+
+
+def generated2(seed, n):
+    """n shape-aware random programs (deterministic in seed)"""
+    out = []
+    rnd = random.Random(7000 + seed)
+    shapes0 = [(3,), (2, 3), (3, 2), (3, 3), (2, 2, 3), (4,), (1, 3), (), (3, 1), (2, 3, 4), (0, 3), (1,)]
+    k = 0
+    attempts = 0
+    while len(out) < n and attempts < 50 * n:
+        attempts += 1
+        nin = rnd.randint(1, 3)
+        ins = [ph(f"x{j}", rnd.choice(shapes0), F64) for j in range(nin)]
+        pool = [np.ones(shp, dt) for _, shp, dt, _ in ins]
+        steps = []
+        want = rnd.randint(3, 7)
+        tries = 0
+        while len(steps) < want and tries < 60:
+            tries += 1
+            st = _draw_step(rnd, [a.shape for a in pool])
+            if st is None:
+                continue
+            kind, opnds, prm = st
+            try:
+                with np.errstate(all="ignore"):
+                    r = np.asarray(_apply_step(NpLib(), kind, [pool[q] for q in opnds], prm))
+            except (ValueError, TypeError, IndexError):
+                continue
+            if r.ndim > 4 or any(int(d) > 8 for d in r.shape) or r.size > 64:
+                continue
+            steps.append(st)
+            pool.append(r)
+        if len(steps) < 3:
+            continue
+        kinds = {s_[0] for s_ in steps}
+        tags = ["generated2"]
+        if kinds & {"sum", "prod", "max", "min", "matmul", "einsum1", "einsum2"}:
+            tags += ["reduction", "einsum"]
+        if "arange_index" in kinds:
+            tags.append("advidx")
+        if any(0 in a.shape for a in pool[len(ins):]) and kinds & {"sum", "prod", "matmul", "einsum1", "einsum2"}:
+            tags.append("zsr")         # may hit the listed zero-size stored-reduction finding: C01's own list only
+        out.append(Prog(f"g2_{seed}_{k}", ins, _gen2_fn(steps, min(3, len(steps))), tuple(tags)))
+        k += 1
     return out
 
 
